@@ -60,7 +60,7 @@ RULE = ('per decoder: all byte strings of <= 2 octets (exhaustive), every single
         'bodies (one per address family / route type, built with the reference encoder) set to each of 60 boundary '
         'values (all 256 in the thorough tier) through Update.parse, every registered link-state / prefix-SID TLV nested '
         'inside itself as deep as 4000 octets allow (x fixed-prefix lengths x innermost values), regular patterns of 1024 / 4096 '
-        'octets through every decoder, Hypothesis random / TLV-soup inputs up to 4096 '
+        'octets through every decoder, every attribute type / link-state TLV / link-state NLRI descriptor holding one 3700-octet value alone and next to a refused attribute, Hypothesis random / TLV-soup inputs up to 4096 '
         'octets. Non-trivial = input of >= 3 octets that is not one of the harvested valid encodings, or one of the '
         'exhaustive short strings; distinct by (decoder, bytes).')
 ASSUMPTIONS = [
@@ -265,6 +265,47 @@ FILLERS = [lambda n: b'\x00' * n, lambda n: b'\xff' * n, lambda n: bytes((i % 25
            lambda n: (b'\x00\x05\x00\x03' * n)[:n]]
 
 
+BIG = 3700
+ERR_ATTRS = [rc.attr(0x40, 1, b'\x05'), rc.attr(0x40, 1, b'\x00\x00'), rc.attr(0x40, 200, b''), rc.attr(0x40, 3, b'\x0a\x00\x00'),
+             b'\x40']
+
+
+def big_field_updates():
+    """-> (label, UPDATE body): every attribute type / link-state TLV / link-state NLRI descriptor holding one value of BIG
+    octets, alone and with an attribute the decoder refuses before or after it"""
+    fills = [FILLERS[1], FILLERS[2], FILLERS[0]]
+    bigs = []
+    for tc in range(256):
+        for fi, f in enumerate(fills):
+            flags = 0x40 if tc in (1, 2, 3, 5, 6) else (0x80 if tc in (4, 9, 10, 14, 15, 29) else 0xC0)
+            bigs.append(('attr%d/fill%d' % (tc, fi), rc.attr(flags, tc, f(BIG), ext=True)))
+    for tc in sorted(LinkState.registered_tlvs):
+        for fi, f in enumerate(fills[:2]):
+            bigs.append(('ls-tlv%d/fill%d' % (tc, fi), rc.attr(0x80, 29, struct.pack('!HH', tc, BIG) + f(BIG), ext=True)))
+    for tc in sorted(BGPPrefixSID.registered_tlvs):
+        bigs.append(('sid-tlv%d' % tc, rc.attr(0xC0, 40, struct.pack('!BH', tc, BIG) + fills[0](BIG), ext=True)))
+    # BGP-LS NLRI (RFC 7752 3.2): type, length, protocol id, identifier, descriptor TLVs; one descriptor (sub-)TLV is huge
+    for ntype in (1, 2, 3, 4, 6):
+        for outer in (256, 257):
+            for sub in (512, 513, 514, 515, 516, 517, 518):
+                for fi, f in enumerate(fills[:2]):
+                    d = struct.pack('!HH', outer, BIG + 4) + struct.pack('!HH', sub, BIG) + f(BIG)
+                    nl = struct.pack('!HH', ntype, 9 + len(d)) + b'\x02' + b'\x00' * 8 + d
+                    bigs.append(('ls-nlri%d/%d/%d/fill%d' % (ntype, outer, sub, fi), rc.a_mp_reach(16388, 71, b'\x0a\x00\x00\x01', nl, ext=True)))
+        for top in (258, 259, 260, 261, 262, 263, 264, 265, 518, 1161, 1162):
+            local = struct.pack('!HH', 256, 8) + struct.pack('!HHI', 512, 4, 65001)
+            d = local + struct.pack('!HH', top, BIG) + fills[0](BIG)
+            nl = struct.pack('!HH', ntype, 9 + len(d)) + b'\x02' + b'\x00' * 8 + d
+            bigs.append(('ls-nlri%d/top%d' % (ntype, top), rc.a_mp_reach(16388, 71, b'\x0a\x00\x00\x01', nl, ext=True)))
+            bigs.append(('ls-nlri%d/top%d/unreach' % (ntype, top), rc.a_mp_unreach(16388, 71, nl, ext=True)))
+    for label, big in bigs:
+        yield label, rc.update_body(attrs=big)
+        for ei, e in enumerate(ERR_ATTRS):
+            yield '%s+err%d' % (label, ei), rc.update_body(attrs=big + e)
+            if len(e) > 1:
+                yield 'err%d+%s' % (ei, label), rc.update_body(attrs=e + big)
+
+
 def decoder_groups(n):
     names = sorted(DECODERS)
     return [names[i::n] for i in range(n)]
@@ -300,6 +341,8 @@ def shards(tier):
         out.append({'name': 'tlv-towers-%d' % i, 'kind': 'towers', 'part': i, 'parts': 8})
     for i in range(16):
         out.append({'name': 'long-patterns-%d' % i, 'kind': 'long', 'group': i, 'ngroups': 16})
+    for i in range(8):
+        out.append({'name': 'big-field+error-%d' % i, 'kind': 'bigfield', 'part': i, 'parts': 8})
     for i in range(4 if tier == 'quick' else 16):
         out.append({'name': 'field-pairs-%d' % i, 'kind': 'fields2', 'examples': 1500 if tier == 'quick' else 60000,
                     'hypothesis': True})
@@ -404,6 +447,18 @@ def run_shard(spec, seed, col, tier):
                     col.fail(sig, {'decoder': name, 'data': data.hex()}, detail)
                 n += 1
         col.bulk(n, n, label='long-patterns', sample={'decoder': names[0], 'data': (FILLERS[3](64)).hex() + '...'})
+    elif kind == 'bigfield':
+        # one field of every kind filled to (almost) the whole message, next to an attribute the decoder refuses: the call
+        # still returns a result with the sub-error (whatever the decoder does with the partial result must cope with its size)
+        n = 0
+        sample = None
+        jobs = list(big_field_updates())
+        for label, body in jobs[spec['part']::spec['parts']]:
+            for sig, detail in call('Update.parse', body, col):
+                col.fail(sig, {'decoder': 'Update.parse', 'data': body.hex()}, detail)
+            n += 1
+            sample = sample or {'decoder': 'Update.parse', 'what': label, 'data': body[:48].hex() + '...'}
+        col.bulk(n, n, label='big-field+error', sample=sample)
     elif kind == 'towers':
         # a TLV nested inside itself as deep as 4000 octets allow (work must stay linear in the input): every registered
         # link-state / prefix-SID TLV type x the number of fixed octets in front of its sub-TLVs x innermost value
